@@ -221,12 +221,12 @@ for sh, K, V in (("u8", "u8", "u8"), ("id", "Key", "u8")):
     S = "S_" + sh
     for i, op in enumerate(("iter", "keys", "values", "ref_into_iter")):
         add("c09_%s_%s" % (op, sh), "c09::h_iter::<%s, %s, {N}>(%d)" % (K, V, i), ["C09", "C06"] + (["C12"] if op in ("iter", "keys") and sh == "id" else []),
-            Q3 if sh == "u8" else N_(2), T3 if sh == "u8" else N_(3), unwind="N+4",
+            (Q3 + N_(9)) if sh == "u8" else N_(2), (T3 + N_(9)) if sh == "u8" else N_(3), unwind="N+4",
             fn={"iter": "Map::iter, Iter::next/len/size_hint/count/clone", "keys": "Map::keys, Keys::*", "values": "Map::values, Values::*", "ref_into_iter": "IntoIterator for &Map"}[op], shape=S)
     for i, op in enumerate(("iter_mut", "values_mut", "mut_into_iter")):
-        add("c09_%s_%s" % (op, sh), "c09::h_iter_mut::<%s, %s, {N}>(%d)" % (K, V, i), ["C09", "C05"], Q3 if sh == "u8" else N_(2), T3 if sh == "u8" else N_(3), unwind="N+4",
+        add("c09_%s_%s" % (op, sh), "c09::h_iter_mut::<%s, %s, {N}>(%d)" % (K, V, i), ["C09", "C05"], (Q3 + N_(9)) if sh == "u8" else N_(2), (T3 + N_(9)) if sh == "u8" else N_(3), unwind="N+4",
             fn={"iter_mut": "Map::iter_mut, IterMut::*", "values_mut": "Map::values_mut, ValuesMut::*", "mut_into_iter": "IntoIterator for &mut Map"}[op], shape=S)
-    add("c09_set_iter_" + sh, "c09::h_set_iter::<%s, {N}>()" % K, ["C09", "C06"] + (["C12"] if sh == "id" else []), Q3, T3, unwind="N+4", fn="Set::iter, SetIter::*, IntoIterator for &Set", shape=S)
+    add("c09_set_iter_" + sh, "c09::h_set_iter::<%s, {N}>()" % K, ["C09", "C06"] + (["C12"] if sh == "id" else []), Q3 + (N_(9) if sh == "u8" else []), T3 + (N_(9) if sh == "u8" else []), unwind="N+4", fn="Set::iter, SetIter::*, IntoIterator for &Set", shape=S)
     add("c05_observe_" + sh, "c09::h_observe::<%s, %s, {N}>()" % (K, V), ["C05"], Q3, T3, unwind="N+3", fn="Map::iter/len/is_empty/capacity/get (observations)", shape=S)
 
 # ------------------------------------------------------------------ C10 consuming iterators
